@@ -16,7 +16,7 @@ TAX_ACTIONS = ["NRA Tax Adj", "NRA Withholding"]
 NON_CGT = ["Adjustment", "Credit Interest", "Journal", "Misc Cash Entry", "MoneyLink Transfer", "Service Fee",
            "Wire Funds Adj", "Wire Sent"]
 UNKNOWN = ["Reinvest Shares", "Security Transfer", "Bond Interest", "Spin-off", "Internal Transfer", "Margin Interest"]
-SYMBOLS = ["XYZZ", "ACME", "BAR", "GOOG1", "Q", "ABC123"]
+SYMBOLS = ["XYZZ", "ACME", "BAR", "GOOG1", "Q", "ABC123", "3IN", "0700"]
 
 
 def amount(s):
@@ -269,6 +269,11 @@ def gen_export(rng, with_rsu=True, hostile=True, n=(3, 25), start_year=(2016, 20
                 rows.append(dict(base, Action=rng.choice(TAX_ACTIONS), Amount="-" + spell_amount(rng, t)))
                 if rng.random() < 0.2:
                     rows.append(dict(base, Action=rng.choice(TAX_ACTIONS), Amount="-" + spell_amount(rng, t)))
+        elif k < 0.84 and rng.random() < 0.4:
+            # a batch of withholdings without dividends on one date for several symbols (a year-end reclassification)
+            for s2 in rng.sample(SYMBOLS, 3):
+                rows.append(dict(base, Action=rng.choice(TAX_ACTIONS), Amount="-" + spell_amount(rng, Fraction(rng.randint(1, 999), 100)),
+                                 Symbol=spell[s2]))
         elif k < 0.84:
             # withholding with no dividend that day / no symbol
             rows.append(dict(base, Action=rng.choice(TAX_ACTIONS), Amount="-" + spell_amount(rng, Fraction(rng.randint(1, 999), 100)),
